@@ -1138,6 +1138,17 @@ fn main() {
                         // a record nested in a class has no module of its own
                         if comps.iter().any(|cmp| !c.prog.namespaces.iter().any(|n| n.split("::").any(|x| x == *cmp))) { ok = false; break; }
                         let module = std::iter::once("root").chain(comps.iter().copied()).collect::<Vec<_>>().join("::");
+                        // a blocklisted typedef of a scalar: the user's definition is an alias of that scalar (see `oracles`)
+                        const SCALARS: &[(&str, &str)] = &[("int", "::std::os::raw::c_int"), ("char", "::std::os::raw::c_char"), ("unsigned long", "::std::os::raw::c_ulong"),
+                            ("double", "f64"), ("short", "::std::os::raw::c_short"), ("unsigned char", "::std::os::raw::c_uchar"), ("float", "f32"), ("long long", "::std::os::raw::c_longlong")];
+                        let scalar = if k == "Alias" {
+                            (0..c.prog.decls.len()).find(|&i| c.prog.decls[i].kind == DKind::Typedef && c.prog.path(i) == it.name)
+                                .and_then(|i| SCALARS.iter().find(|(ct, _)| c.prog.decls[i].text == format!("typedef {ct} {};", c.prog.decls[i].base)).map(|(_, r)| *r))
+                        } else { None };
+                        if let Some(r) = scalar {
+                            extra.push("--module-raw-line".into()); extra.push(module); extra.push(format!("pub type {ty} = {r};"));
+                            continue;
+                        }
                         match it.layout {
                             Some((sz, a)) if a.is_power_of_two() => { extra.push("--module-raw-line".into()); extra.push(module); extra.push(format!("#[repr(C, align({a}))] pub struct {ty} {{ _b: [u8; {sz}] }}")); }
                             _ => { ok = false; break; }
